@@ -29,7 +29,7 @@ func props() map[string]Prop {
 			Units: []Unit{
 				{Name: "format", Pkg: "internal/counter", Harness: "internal_counter", Run: "^TestVerifC10$", Instrument: counterInstr, Timeout: 30 * time.Minute},
 				// several concurrent writers: the C04 schedule harness (same strict decoder after every step), at a third of its size
-				{Name: "writers", Pkg: "internal/counter", Harness: "internal_counter", Run: "^TestVerifC04$", Instrument: counterInstr, Timeout: 40 * time.Minute, Env: []string{"VERIF_SCALE=0.34"}},
+				{Name: "writers", Pkg: "internal/counter", Harness: "internal_counter", Run: "^TestVerifC04$", Instrument: counterInstr, Timeout: 40 * time.Minute, Env: []string{"VERIF_SCALE=0.34", "VERIF_C04_AS=C10.writers"}},
 			},
 			Assume: []string{
 				"the reference decoder/writer in /verif/ref follow the documented v1 layout (hash pinned by FNV-1a definition)",
